@@ -94,8 +94,8 @@ end Zip
 
 section Stream
 variable {W : Type} [DecidableEq W]
-variable {F : Type} [Zero F] [One F] [Add F] [Sub F] [Mul F] [Div F]
-variable (E : Rat → F) (cs : Comps W) (X Y : List W → List W)
+variable {I Evt : Type} (step : List W → I → List W → I) (emit : List W → I → List W → List Evt)
+variable (X Y : List W → List W)
 
 /-- the records of context `c` itself -/
 def own (c : List W) : List (Rec W) := (X c).map (fun x => (c, x))
@@ -186,16 +186,16 @@ def needS : Nat → List W → Nat
 def needE (d : Nat) (ys : List W) (c : List W) : Nat :=
   (ys.map (fun y => 1 + needS Y d (y :: c))).sum
 
-theorem extendCtx_nil (fuel : Nat) (m : List W) (z : F) :
-    extendCtx E cs fuel ([] : List (List (Rec W))) m z = ([], []) := by
-  cases fuel <;> simp [extendCtx]
+theorem extendCtx_nil (fuel : Nat) (m : List W) (z : I) :
+    extendCtxG step emit fuel ([] : List (List (Rec W))) m z = ([], []) := by
+  cases fuel <;> simp [extendCtxG]
 
 /-- the part of `sameCtx` that concerns its own stream -/
-theorem sameCtx_own (n : Nat) (r0 : List (Rec W)) (ss : List (List (Rec W))) (c : List W) (zl : F)
+theorem sameCtx_own (n : Nat) (r0 : List (Rec W)) (ss : List (List (Rec W))) (c : List W) (zl : I)
     (h0 : ∀ r, r0.head? = some r → ¬ c <:+ r.1) :
-    sameCtx E cs (n + 1) ((own X c ++ r0) :: ss) c zl =
-      (r0 :: (extendCtx E cs n ss c (zStep E cs c zl (X c))).1,
-        sameEvents E cs c zl (X c) ++ (extendCtx E cs n ss c (zStep E cs c zl (X c))).2) := by
+    sameCtxG step emit (n + 1) ((own X c ++ r0) :: ss) c zl =
+      (r0 :: (extendCtxG step emit n ss c (step c zl (X c))).1,
+        emit c zl (X c) ++ (extendCtxG step emit n ss c (step c zl (X c))).2) := by
   have hp := takeWhile_append_of_head (fun r : Rec W => decide (r.1 = c)) (own X c) r0
     (by
       intro a ha
@@ -214,38 +214,45 @@ theorem sameCtx_own (n : Nat) (r0 : List (Rec W)) (ss : List (List (Rec W))) (c 
     apply List.map_congr_left
     intro x _
     rfl
-  rw [sameCtx]
+  rw [sameCtxG]
   simp only [hp.1, hp.2, hmap]
+
+theorem specSameG_zero (c : List W) (zl : I) :
+    specSameG step emit X Y 0 c zl = emit c zl (X c) := rfl
+
+theorem specSameG_succ (d : Nat) (c : List W) (zl : I) :
+    specSameG step emit X Y (d + 1) c zl =
+      emit c zl (X c) ++ (Y c).flatMap (fun y => specSameG step emit X Y d (y :: c) (step c zl (X c))) := rfl
 
 /-- statement of the refinement for subtrees `d` levels deep -/
 def SameSpec (d : Nat) : Prop :=
-  ∀ (c : List W) (zl : F) (rests : List (List (Rec W))) (fuel : Nat),
+  ∀ (c : List W) (zl : I) (rests : List (List (Rec W))) (fuel : Nat),
     rests.length = d + 1 → needS Y d c ≤ fuel → Good X Y d c →
     HeadsOK (fun r : Rec W => ¬ c <:+ r.1) rests →
-    sameCtx E cs fuel (List.zipWith (· ++ ·) (levels X Y d c) rests) c zl =
-      (rests, specSame E cs X Y d c zl)
+    sameCtxG step emit fuel (List.zipWith (· ++ ·) (levels X Y d c) rests) c zl =
+      (rests, specSameG step emit X Y d c zl)
 
 /-- **refinement, the sibling loop** of `ExtendContext`, given the refinement for the subtrees -/
-theorem extendCtx_spec (d : Nat) (hS : SameSpec E cs X Y d) :
-    ∀ (ys : List W) (c : List W) (z : F) (rests : List (List (Rec W)))
+theorem extendCtx_spec (d : Nat) (hS : SameSpec step emit X Y d) :
+    ∀ (ys : List W) (c : List W) (z : I) (rests : List (List (Rec W)))
       (fuel : Nat), rests.length = d + 1 → needE Y d ys c ≤ fuel →
       (∀ y ∈ ys, X (y :: c) ≠ [] ∧ Good X Y d (y :: c)) → ys.Nodup →
       HeadsOK (fun r : Rec W => ¬ c <:+ r.1) rests →
-      extendCtx E cs fuel (List.zipWith (· ++ ·) (levelsE X Y d ys c) rests) c z =
-        (rests, ys.flatMap (fun y => specSame E cs X Y d (y :: c) z))
+      extendCtxG step emit fuel (List.zipWith (· ++ ·) (levelsE X Y d ys c) rests) c z =
+        (rests, ys.flatMap (fun y => specSameG step emit X Y d (y :: c) z))
   | [], c, z, rests, fuel, hlen, _, _, _, hheads => by
     rw [levelsE_nil, zipWith_replicate_nil _ _ (by omega)]
     match rests, hlen with
     | r0 :: rs, _ =>
       cases fuel with
-      | zero => simp [extendCtx]
+      | zero => simp [extendCtxG]
       | succ n =>
         cases r0 with
-        | nil => simp [extendCtx]
+        | nil => simp [extendCtxG]
         | cons r s =>
           have hno := hheads (r :: s) List.mem_cons_self r rfl
           have hne : r.1.tail ≠ c := fun h => hno (h ▸ List.tail_suffix r.1)
-          simp [extendCtx, hne]
+          simp [extendCtxG, hne]
   | y :: ys, c, z, rests, fuel, hlen, hfuel, hgood, hnd, hheads => by
     have hy := hgood y List.mem_cons_self
     have hnd' := List.nodup_cons.1 hnd
@@ -285,10 +292,10 @@ theorem extendCtx_spec (d : Nat) (hS : SameSpec E cs X Y d) :
         (((y :: c, x0) :: (xs.map (fun x => (y :: c, x)) ++ r0')) :: List.zipWith (· ++ ·) L' Rs') := by
       rw [hL', hRs', List.zipWith_cons_cons]
       simp [own, hX]
-    rw [hshape, extendCtx]
+    rw [hshape, extendCtxG]
     simp only [List.tail_cons, if_true]
-    have hEx' : extendCtx E cs n R' c z =
-        (rests, ys.flatMap (fun y => specSame E cs X Y d (y :: c) z)) := hEx
+    have hEx' : extendCtxG step emit n R' c z =
+        (rests, ys.flatMap (fun y => specSameG step emit X Y d (y :: c) z)) := hEx
     rw [← hshape, hS']
     simp only [hEx', List.flatMap_cons]
 
@@ -296,15 +303,15 @@ theorem extendCtx_spec (d : Nat) (hS : SameSpec E cs X Y d) :
 /-- **refinement, one subtree**: on streams that start with the grouped records of the subtree of
 `c`, followed by anything whose heads do not belong to that subtree, `SameContext` consumes exactly
 the subtree and writes what the structural recursion writes. -/
-theorem sameCtx_spec : ∀ d : Nat, SameSpec E cs X Y d
+theorem sameCtx_spec : ∀ d : Nat, SameSpec step emit X Y d
   | 0 => by
     intro c zl rests fuel hlen hfuel _ hheads
     match rests, hlen with
     | [r0], _ =>
       obtain ⟨n, rfl⟩ : ∃ n, fuel = n + 1 := ⟨fuel - 1, by simp [needS] at hfuel; omega⟩
       rw [levels_zero, List.zipWith_cons_cons, List.zipWith_nil_left,
-        sameCtx_own E cs X n r0 [] c zl (hheads r0 List.mem_cons_self), extendCtx_nil]
-      simp [specSame]
+        sameCtx_own step emit X n r0 [] c zl (hheads r0 List.mem_cons_self), extendCtx_nil]
+      simp [specSameG]
   | d + 1 => by
     intro c zl rests fuel hlen hfuel hgood hheads
     match rests, hlen with
@@ -313,11 +320,11 @@ theorem sameCtx_spec : ∀ d : Nat, SameSpec E cs X Y d
       obtain ⟨n, rfl⟩ : ∃ n, fuel = n + 1 := ⟨fuel - 1, by simp [needS] at hfuel; omega⟩
       have hn : needE Y d (Y c) c ≤ n := by simp only [needS] at hfuel; unfold needE; omega
       rw [levels_succ, List.zipWith_cons_cons,
-        sameCtx_own E cs X n r0 _ c zl (hheads r0 List.mem_cons_self)]
-      have hE := extendCtx_spec E cs X Y d (sameCtx_spec d) (Y c) c (zStep E cs c zl (X c)) rs n hrs hn
+        sameCtx_own step emit X n r0 _ c zl (hheads r0 List.mem_cons_self)]
+      have hE := extendCtx_spec step emit X Y d (sameCtx_spec d) (Y c) c (step c zl (X c)) rs n hrs hn
         hgood.2 hgood.1 (fun l hl => hheads l (List.mem_cons_of_mem _ hl))
       rw [hE]
-      simp [specSame]
+      simp [specSameG]
 
 end Stream
 
@@ -365,9 +372,11 @@ model (`pOut`, `boSame`) for every context of the subtree -/
 theorem specSame_eq_specOut (hX : ∀ c, (X c).Perm (explicit cs c)) : ∀ (d : Nat) (y : W) (c : List W),
     specSame E cs X Y d (y :: c) (Zinc E cs V c) = specOut E cs V X Y d (y :: c)
   | 0, y, c => by
-    rw [specSame, specOut, sameEvents_eq E cs V X y c (hX _)]
+    show specSameG (zStep E cs) (sameEvents E cs) X Y 0 (y :: c) (Zinc E cs V c) = _
+    rw [specSameG_zero, specOut, sameEvents_eq E cs V X y c (hX _)]
   | d + 1, y, c => by
-    rw [specSame, specOut, sameEvents_eq E cs V X y c (hX _), zStep_eq_Zinc E cs V y c (hX _)]
+    show specSameG (zStep E cs) (sameEvents E cs) X Y (d + 1) (y :: c) (Zinc E cs V c) = _
+    rw [specSameG_succ, specOut, sameEvents_eq E cs V X y c (hX _), zStep_eq_Zinc E cs V y c (hX _)]
     congr 1
     apply List.flatMap_congr
     intro y' _
@@ -382,10 +391,11 @@ theorem pass2_refines (hX : ∀ c, (X c).Perm (explicit cs c)) (D : Nat) (fuel :
     (hgood : ∀ y ∈ Y [], X [y] ≠ [] ∧ Good X Y D [y]) (hnd : (Y []).Nodup) :
     extendCtx E cs fuel (levelsE X Y D (Y []) []) [] (Zinc E cs V []) =
       (List.replicate (D + 1) [], (Y []).flatMap (fun y => specOut E cs V X Y D [y])) := by
-  have h := extendCtx_spec E cs X Y D (sameCtx_spec E cs X Y D) (Y []) [] (Zinc E cs V [])
+  have h := extendCtx_spec (zStep E cs) (sameEvents E cs) X Y D (sameCtx_spec (zStep E cs) (sameEvents E cs) X Y D) (Y []) [] (Zinc E cs V [])
     (List.replicate (D + 1) []) fuel (by simp) hfuel hgood hnd
     (by intro l hl r hr; rw [(List.mem_replicate.1 hl).2] at hr; simp at hr)
   rw [zipWith_replicate_nil_right _ _ (by rw [length_levelsE])] at h
+  show extendCtxG (zStep E cs) (sameEvents E cs) fuel (levelsE X Y D (Y []) []) [] (Zinc E cs V []) = _
   rw [h]
   congr 1
   apply List.flatMap_congr
